@@ -90,6 +90,12 @@ def gen_case(rng, tier, i):
         c["lines"] = out
     if c["version"] == "gfa2" and rng.random() < 0.6:
         c["lines"] = _unequal_outward(rng, c["lines"])
+    # (the draws below come last, so that the kinds of document described above are generated as before)
+    if c["version"] == "gfa1":
+        if rng.random() < 0.3:
+            c["lines"] = _covered_members(rng, c["lines"])
+        if rng.random() < 0.4:
+            c["lines"] = _walk_paths(rng, c["lines"])
     return c
 
 
@@ -142,6 +148,128 @@ def _unequal_outward(rng, lines, p_edge=0.7):
     return out
 
 
+def _complement_ovl(ovl):
+    """a match-only CIGAR read from the other strand (the operations in reverse order)"""
+    if ovl == "*":
+        return "*"
+    return "".join("%d%s" % (n, k) for n, k in reversed(G.cigar_ops(ovl)))
+
+
+def _path_steps(f):
+    """P line fields -> [((seg, orient), (seg, orient), index into the overlap list)] (a circular path, which has
+    as many overlaps as segments, closes with a step from the last to the first segment)"""
+    items = [(x[:-1], x[-1]) for x in f[2].split(",")]
+    ovls = f[3].split(",")
+    steps = [(items[i], items[i + 1], i) for i in range(len(items) - 1)]
+    if len(ovls) == len(items) and len(items) > 1 and f[3] != "*":
+        steps.append((items[-1], items[0], len(items) - 1))
+    return steps
+
+
+def _covered_members(rng, lines, p_join=0.6):
+    """GFA1: usable joins (at least one, each further one with probability p_join) get an overlap as long as the
+    SHORTER of the two joined segments (kM, k= or jM(k-j)M with k = min of the two lengths): the boundary value of
+    the overlap length, at which the shorter member is entirely covered by the overlap and contributes no base of
+    its own when it is the successor in the traversal (in GFA2 such an edge would be a containment; in GFA1 it is an
+    L line like any other).  The chains are unchanged (they depend on the ends only); a P line which states the
+    overlap of such a link is rewritten to state the new one."""
+    d = G.parse(lines, "gfa1")
+    if len(d.lines) != len(lines):
+        return lines
+    _, _, joins = G.chains(d)
+    cand = [e for e in joins.values() if e["rt"] == "L" and d.segs[e["a"]]["len"] is not None
+            and d.segs[e["b"]]["len"] is not None]
+    cand.sort(key=lambda e: e["idx"])
+    if not cand:
+        return lines
+    sure = rng.choice(cand)
+    out = list(d.lines)
+    changed = {}
+    for e in cand:
+        if e is not sure and rng.random() >= p_join:
+            continue
+        k = min(d.segs[e["a"]]["len"], d.segs[e["b"]]["len"])
+        r = rng.random()
+        if r < 0.25:
+            ovl = "%d=" % k
+        elif r < 0.4 and k >= 2:
+            j = rng.randint(1, k - 1)
+            ovl = "%dM%dM" % (j, k - j)
+        else:
+            ovl = "%dM" % k
+        f = e["line"].split("\t")
+        f[5] = ovl
+        out[e["idx"]] = "\t".join(f)
+        changed[((e["a"], e["oa"]), (e["b"], e["ob"]))] = ovl
+    for r_ in d.recs:
+        if r_["rt"] != "P":
+            continue
+        f = r_["line"].split("\t")
+        if f[3] == "*":
+            continue
+        ovls = f[3].split(",")
+        for x, y, i in _path_steps(f):
+            if i >= len(ovls) or ovls[i] == "*":
+                continue
+            if (x, y) in changed:
+                ovls[i] = changed[(x, y)]
+            elif ((y[0], G.INV[y[1]]), (x[0], G.INV[x[1]])) in changed:
+                ovls[i] = _complement_ovl(changed[((y[0], G.INV[y[1]]), (x[0], G.INV[x[1]]))])
+        f[3] = ",".join(ovls)
+        out[r_["idx"]] = "\t".join(f)
+    return out
+
+
+def _walk_paths(rng, lines):
+    """GFA1: 1-3 more P lines (p2, p3, p4), each a random walk of 2-8 oriented segments over the L lines of the
+    document (either strand of a link; a link, a segment, a self-link or a hairpin may be walked several times;
+    junctions are crossed), started on a chain member in 2 of 3 walks: paths which walk through a chain, or through
+    several chains, AND go on over links which do not touch it.  The overlap field is `*` (30%) or the list of the
+    overlaps of the walked links as read in the direction of the walk (each specified one is replaced by `*` with
+    probability 0.1), so every step is supported by an L line of the document.  The P lines are put at the end of
+    the document, or (30%) anywhere after the S lines (a P line ahead of its L lines)."""
+    d = G.parse(lines, "gfa1")
+    if len(d.lines) != len(lines):
+        return lines
+    adj = {}
+    for e in d.dovetails:
+        if e["rt"] != "L":
+            continue
+        adj.setdefault((e["a"], e["oa"]), []).append(((e["b"], e["ob"]), e["ovl"]))
+        adj.setdefault((e["b"], G.INV[e["ob"]]), []).append(((e["a"], G.INV[e["oa"]]), _complement_ovl(e["ovl"])))
+    if not adj:
+        return lines
+    paths, cycles, _ = G.chains(d)
+    member_starts = [x for x in adj if any(x[0] == s for p in paths + cycles for s, _ in p)]
+    used = set(r_["name"] for r_ in d.recs if r_["name"]) | set(d.segs)
+    new = []
+    for nm in ["p2", "p3", "p4"][:rng.choice([1, 1, 2, 3])]:
+        if nm in used:
+            continue
+        cur = rng.choice(member_starts) if (member_starts and rng.random() < 0.67) else rng.choice(list(adj))
+        items, ovls = [cur], []
+        for _ in range(rng.randint(1, 7)):
+            if cur not in adj:
+                break
+            cur, ovl = rng.choice(adj[cur])
+            items.append(cur)
+            ovls.append(ovl)
+        if len(items) < 2:
+            continue
+        if rng.random() < 0.3:
+            field = "*"
+        else:
+            field = ",".join("*" if (o != "*" and rng.random() < 0.1) else o for o in ovls)
+        new.append("P\t%s\t%s\t%s" % (nm, ",".join(s + o for s, o in items), field))
+    out = list(d.lines)
+    if rng.random() < 0.3:
+        first = 1 + max([r_["idx"] for r_ in d.recs if r_["rt"] == "S"] or [-1])
+        for l in new:
+            out.insert(rng.randint(first, len(out)), l)
+        return out
+    return out + new
+
+
 def _doc(case):
     return G.parse(case["lines"], case["version"])
 
@@ -152,7 +280,21 @@ def nontrivial(case):
 
 
 def tags(case):
-    return G.features(_doc(case))
+    d = _doc(case)
+    t = G.features(d)
+    paths, cycles, joins = G.chains(d)
+    if case["version"] == "gfa1":
+        if any(e["cut"] is not None and e["cut"] in (d.segs[e["a"]]["len"], d.segs[e["b"]]["len"]) for e in joins.values()):
+            t.append("covered-member")
+        members = set(s for p in paths + cycles for s, _ in p)
+        for r_ in d.recs:
+            if r_["rt"] == "P" and len(r_["refs"]) > 2:
+                t.append("walk-path")
+                refs = r_["refs"]
+                if members.intersection(refs) and any(a not in members and b not in members for a, b in zip(refs, refs[1:])):
+                    t.append("path-through-chain-and-beyond")
+        t = sorted(set(t), key=t.index)
+    return t
 
 
 def signature(case, failure):
